@@ -352,6 +352,9 @@ FOverflow ==
   /\ \/ m.moved /\ \E o \in Pick({"hlineto", "vlineto"}) : Faulted("overflow", Lits(49) \o <<Op(o)>>)
      \/ ~m.wset /\ m.stage = 0 /\ Faulted("overflow", Lits(49) \o <<Op("hstem")>>)
      \/ \E o \in Pick({"add", "drop", "exch"}) : Faulted("overflow", Lits(49) \o <<Op(o)>>)
+     \* the 49th entry is pushed by an operator, not by a number (also when it is dropped again at once)
+     \/ \E o \in Pick({"dup", "random"}) : \E tail \in Pick({<<>>, <<Op("drop")>>, <<Op("add")>>}) :
+          Faulted("overflow", Lits(48) \o <<Op(o)>> \o tail)
 
 \* the text ends without endchar (every open subroutine returns first)
 FNoEndchar ==
